@@ -91,6 +91,11 @@ func (w *vWorld) vStep() (*DialogueElement, error, vSpecOutcome) {
 		vAssert(dr.currentNode == spec.node, "current node")
 	}
 	vAssert(len(w.handlers)-nH == spec.nCmd, "each executed command statement invokes its handler exactly once")
+	if len(w.handlers) > nH && w.handlers[nH].name == "cmd" {
+		a := w.handlers[nH].args
+		vAssert(len(a) == 2 && vKind(a[0]) == 0 && *a[0].Number == 3 && vKind(a[1]) == 2 && *a[1].String == "arg", "the handler receives the arguments in order")
+		vReach("handler-args")
+	}
 	vAssert(len(w.probes)-nP == spec.nProbe, "each executed call statement invokes its function exactly once")
 
 	// C11: counts change only by +1 per successful jump, for the node left, unless tracking: never
